@@ -24,7 +24,7 @@ Reset == /\ Ev("Reset")
          /\ expected' = <<>> /\ processed' = {} /\ ret' = None /\ cancelled' = FALSE
          /\ threshold' = Trace[l].th /\ restrict' = FALSE /\ feedOrdered' = TRUE
          /\ everExp' = {} /\ everProc' = {} /\ ckpts' = <<>> /\ shE' = <<>> /\ shP' = {} /\ shRet' = None
-         /\ dupFree' = TRUE /\ accExp' = {} /\ hist' = <<>>
+         /\ dupFree' = TRUE /\ accExp' = {} /\ shCkpts' = {} /\ hist' = <<>>
 
 (* pass P: implementation variables := logged real state; ghosts advance from the logged inputs *)
 PExpect       == Ev("Expect")       /\ Logged /\ GhostExpect(LSeq(Trace[l].toks))       /\ UNCHANGED hist
@@ -32,7 +32,8 @@ PAlreadyKnown == Ev("AlreadyKnown") /\ Logged /\ GhostAlreadyKnown(LSeq(Trace[l]
 PProcessed    == Ev("Processed")    /\ Logged /\ GhostProcessed(T2(Trace[l].toks[1]))    /\ UNCHANGED hist
 PTick         == Ev("Tick")         /\ Logged /\ GhostTick                            /\ UNCHANGED hist
 PCancel       == Ev("Cancel")       /\ Logged /\ GhostCancel                          /\ UNCHANGED hist
-PNext == PCancel \/ Reset \/ PExpect \/ PAlreadyKnown \/ PProcessed \/ PTick
+PSort         == Ev("Sort")         /\ Logged /\ GhostSort                            /\ UNCHANGED hist
+PNext == PSort \/ PCancel \/ Reset \/ PExpect \/ PAlreadyKnown \/ PProcessed \/ PTick
 PSpec == TInit /\ [][PNext]_tvars
 
 (* pass C: each logged step is an instance of the corresponding action, from the previous REAL state *)
@@ -41,7 +42,8 @@ CAlreadyKnown == Ev("AlreadyKnown") /\ ImplAlreadyKnown(LSeq(Trace[l].toks)) /\ 
 CProcessed    == Ev("Processed")    /\ ImplProcessed(T2(Trace[l].toks[1]))    /\ Logged /\ GhostProcessed(T2(Trace[l].toks[1]))    /\ UNCHANGED hist
 CTick         == Ev("Tick")         /\ ImplTick                            /\ Logged /\ GhostTick                            /\ UNCHANGED hist
 CCancel       == Ev("Cancel")       /\ ImplCancel /\ Logged /\ GhostCancel           /\ UNCHANGED hist
-CNext == CCancel \/ Reset \/ CExpect \/ CAlreadyKnown \/ CProcessed \/ CTick
+CSort         == Ev("Sort")         /\ ImplSort /\ Logged /\ GhostSort               /\ UNCHANGED hist
+CNext == CSort \/ CCancel \/ Reset \/ CExpect \/ CAlreadyKnown \/ CProcessed \/ CTick
 CSpec == TInit /\ [][CNext]_tvars
 
 Progress == Mark(l)
